@@ -341,6 +341,31 @@ def random_sessions(rep, kind, recs, nsess, length, seed):
         recs.append({"tid": len(recs) + 1, "kind": kind, "src": "session", "events": events})
 
 
+def testsuite_sessions(wd, cap=300):
+    """run the repository's tests under the external tracer and return the recorded object sessions"""
+    import json
+    import subprocess
+    import sys
+    from harness.common import REPO, VERIF
+    out = os.path.join(wd, "testsuite_trace.ndjson")
+    if os.path.exists(out):
+        os.remove(out)
+    env = dict(os.environ)
+    env.update({"EQSIG_VERIF_TRACE": out, "PYTHONPATH": VERIF + os.pathsep + REPO, "PYTHONDONTWRITEBYTECODE": "1"})
+    try:
+        subprocess.run([sys.executable, "-m", "pytest", "-q", "-x", "-p", "no:cacheprovider", "-p", "harness.tracer", "tests"], cwd=REPO, env=env,
+                       stdout=subprocess.DEVNULL, stderr=subprocess.DEVNULL, timeout=600)
+    except Exception:
+        return []
+    recs = []
+    if os.path.exists(out):
+        for line in open(out):
+            r = json.loads(line)
+            r["events"] = r["events"][:cap]
+            recs.append(r)
+    return recs
+
+
 def run(tier, seed):
     rep = Report("C04", tier, seed)
     wd = workdir("C04")
@@ -376,6 +401,10 @@ def run(tier, seed):
         rep.evaluations += nst
         # 4. sessions chosen by the driver
         random_sessions(rep, kind, recs, 6 if tier == "quick" else 60, 30 if tier == "quick" else 80, seed + (1 if kind == "Signal" else 0))
+    # 4b. the repository's own test-suite under the external tracer (harness/tracer.py): real usage sessions
+    ts = testsuite_sessions(wd)
+    recs += ts
+    rep.extra["testsuite_sessions"] = {"objects": len(ts), "events": sum(len(r["events"]) for r in ts)}
     for i, rcd in enumerate(recs):
         rcd["tid"] = i + 1
     # 5. code -> spec: recorded sessions validated by TLC
